@@ -35,11 +35,12 @@
      save / restart (Reload)        WalletStorage.write dumps with sort_keys=True: after a restart the preference keys and
                                     the inside of every entry are in sorted order (`srt`), the data is the same.
      save                           with encrypt-on-disk on and no password held, save() switches the preference OFF at the
-                                    device's clock (reachable only after the aborted merge above).
+                                    device's clock (reachable after the aborted merge above, and after the restart of
+                                    an encrypted wallet without accounts: nothing is locked, nobody gives the password).
 
    Clauses (state predicates over HYPOTHETICAL merges from every reachable state, so they need no particular history):
    NoDupNoDrop, AddsExactlyMissing, CarriedFields, PrefLaterWins, Idempotent, Converge, StarConverge, HashSound,
-   HashComplete, ConvergeHash; action properties EditChangesHash, WrongPasswordRefused, PullIsMerge.
+   HashComplete, ConvergeHash, TieRules; action properties EditChangesHash, HashStable, WrongPasswordRefused, PullMonotone.
    The clauses the code does NOT have are kept as *Naive predicates (TLC refutes them, the counterexamples are replayed on
    the real code): ConvergeNaive (equal modified_on with different names / gaps: both sides keep their own for ever),
    HashCompleteNaive and ConvergeHashNaive (equal data, different hash: preference insertion order, restart),
@@ -47,8 +48,8 @@
 
    Switches (negative controls): PREFRULE "lt" = code | "le" = ties keep the local value (the statement's wording: TLC
    shows Converge fails with it) | "always"; ACCRULE "gt" = code | "ge" (ties take the payload, as the preferences do:
-   ConvergeNaive HOLDS with it where the generators agree -- positive control) | "always" (modified_on ignored); KEYRULE "union" = code
-   | "replace" | "skip"; MATCHRULE "id" = code | "never" (every incoming account is added); HASHPREFS "ordered" = code |
+   ConvergeNaive HOLDS with it where the generators agree -- positive control) | "always" (modified_on ignored);
+   KEYRULE "union" = code | "replace" | "skip"; MATCHRULE "id" = code | "never" (every incoming account is added); HASHPREFS "ordered" = code |
    "sorted" (what sort_keys=True would give: the Naive hash clauses hold with it) | "none" (hash ignores preferences). *)
 EXTENDS Integers, Sequences, FiniteSets, TLC
 
